@@ -8,6 +8,8 @@ A history is a list of abstract ops (the SAME value is rendered to the Coq model
                                   key:    ("ok", kid, hex) | ("err",) | ("malformed", kid, "early"|"mid"|"far")
                                   attest: "ok" | "err"
   ("restart",) ("client",) ("provision", notify) ("timeup",) ("status_tick",)
+  ("rmdir",)             somebody removes the key directory while the agent runs
+  ("cancelled_signer",)  a requester of the key is dropped between queueing its request and the actor's reply
 Every key id `kid` has its own fresh random canary as key value; after the run EVERY file the run produced,
 the captured stdout/stderr/serial console, every byte returned to clients and every byte sent to the host
 is searched for every canary in several encodings.  Observed = {sink: set of key ids found}.
@@ -43,7 +45,7 @@ if [ -n "$C12_DROP_CHOWN" ]; then setpriv --bounding-set=-chown --inh-caps=-chow
 touch "$D"; ( : > "$F" ) & W=$!; wait $R; kill $W 2>/dev/null; wait $W 2>/dev/null
 umount /dev/console 2>/dev/null; rm -f "$F" "$D"
 exit $rc"""
-STRACE_SET = "mkdir,mkdirat,chown,fchown,lchown,fchownat,chmod,fchmod,fchmodat,open,openat,openat2,creat,rename,renameat,renameat2"
+STRACE_SET = "rmdir,mkdir,mkdirat,chown,fchown,lchown,fchownat,chmod,fchmod,fchmodat,open,openat,openat2,creat,rename,renameat,renameat2"
 
 
 # ------------------------------------------------------------------------------------------
@@ -172,6 +174,17 @@ def key_body(k, keys, rng_variant=0, decoy=None):
             '{"issued": "%s", "key": "%s", "guid": "%s", "authorizationScheme": "Azure-HMAC-SHA256"' % (pad, keys[kid], guid_of(kid)),      # truncated
             '{"issued": "%s", "key": "%s", "guid": 7, "authorizationScheme": "Azure-HMAC-SHA256"}' % (pad, keys[kid]),                       # wrong type
             '{"issued": "%s", "key": "%s", "authorizationScheme": "Azure-HMAC-SHA256"}' % (pad, keys[kid]),                                  # missing field
+        ]
+        doc = json.dumps({"authorizationScheme": "Azure-HMAC-SHA256", "guid": guid_of(kid), "issued": pad, "key": keys[kid]})
+        variants += [
+            json.dumps(doc),                                             # the key document double-encoded as a JSON string
+            json.dumps([pad, keys[kid], guid_of(kid)]),                  # a JSON array carrying the key
+            json.dumps(pad + " " + keys[kid]),                           # a bare JSON string carrying the key
+            json.dumps({"authorizationScheme": "Azure-HMAC-SHA256", "guid": guid_of(kid), "issued": pad,
+                        "key": {"value": keys[kid]}}),                   # key field is an object
+            json.dumps({"authorizationScheme": "Azure-HMAC-SHA256", "guid": guid_of(kid), "issued": pad,
+                        "key": [keys[kid]]}),                            # key field is an array
+            json.dumps({"authorizationScheme": keys[kid], "guid": 5, "issued": pad}),   # key text in another field, wrong types
         ]
         ix = rng_variant % (len(variants) + 1)
         if ix == len(variants):     # the xml branch of read_response_body echoes the body just the same
@@ -324,6 +337,8 @@ def classify(rel):
     if top == "snap":
         if name.startswith("status.json"):
             return "StatusJson"
+        if name.startswith("keyfile"):
+            return "KeyFile"                # key files saved by the driver just before it removed the key directory
         return "ProvisionTag"
     if top == "status":
         return "StatusJson"
@@ -432,6 +447,8 @@ def keydir_trace(root):
             p0 = paths[0]
             if name in ("mkdir", "mkdirat") and os.path.normpath(p0) == keydir:
                 ev.append(("mkdir", None))
+            elif name == "rmdir" and os.path.normpath(p0) == keydir:
+                ev.append(("rmdir", None))
             elif name in ("chown", "lchown", "fchownat") and os.path.normpath(p0) == keydir:
                 nums = re.findall(r',\s*(\d+),\s*(\d+)', args)
                 ev.append(("chown", tuple(int(x) for x in nums[-1]) if nums else None))
@@ -504,7 +521,8 @@ def coq_op(op, keys=None):
         return "Poll %s %s %s" % (s, kk, "AOk" if a == "ok" else "AErr")
     if op[0] == "provision":
         return "ProvisionQuery %s" % cbool(op[1])
-    return {"restart": "Restart", "client": "ClientRequest", "timeup": "ProvisionTimeup", "status_tick": "StatusTick"}[op[0]]
+    return {"restart": "Restart", "client": "ClientRequest", "timeup": "ProvisionTimeup", "status_tick": "StatusTick",
+            "rmdir": "RemoveKeyDir", "cancelled_signer": "CancelledSigner"}[op[0]]
 
 
 def coq_history(hist, keys=None):
@@ -546,6 +564,8 @@ def trace_codes(ev):
             out.append((2, arg if arg is not None else -1))
         elif name == "create":
             out.append((3, 0 if arg == "keyfile" else 1))
+        elif name == "rmdir":
+            out.append((4, 0))
     return out
 
 
@@ -554,7 +574,11 @@ def prop_trace(ev, predir=False, chown_ok=True):
     the environment lets chown succeed, root-owned -- (and nothing undid that) before anything is created in it"""
     chowned, mode = False, (0o755 if predir else None)
     for name, arg in ev:
-        if name == "mkdir":
+        if name == "rmdir":
+            chowned, mode = False, None
+        elif name == "create" and arg != "keyfile":
+            continue                        # status.tag / provisioned.tag are not key files
+        elif name == "mkdir":
             chowned, mode = False, 0o755
         elif name == "chown":
             chowned = (arg == (0, 0))
@@ -562,9 +586,9 @@ def prop_trace(ev, predir=False, chown_ok=True):
             mode = arg
         elif name == "create":
             if mode != 0o700:
-                return "a file was created in the key directory while its mode was %s, not 0700" % (oct(mode) if mode is not None else "unset")
+                return "a key file was created in the key directory while its mode was %s, not 0700" % (oct(mode) if mode is not None else "unset")
             if chown_ok and not chowned:
-                return "a file was created in the key directory before it was chown'ed to root:root"
+                return "a key file was created in the key directory before it was chown'ed to root:root"
     return None
 
 
@@ -608,6 +632,20 @@ SHAPE_CASES = [
       ("poll", ("ok", True, None, 1), ("ok", 3, True), "ok"), ("client",), ("poll", ("ok", True, None, 1), ("ok", 4, True), "ok"), ("client",),
       ("status_tick",), ("provision", False), ("timeup",)],
      {1: "lower64", 2: "mixed64", 3: "empty", 4: "upper64"}),
+]
+
+
+WITNESS_KEYDIR = [("poll", ("ok", True, None, 1), ("ok", 1, True), "ok"), ("rmdir",), ("timeup",),
+                  ("poll", ("ok", True, None, 1), ("ok", 2, True), "ok")]
+ENV_CASES = [
+    WITNESS_KEYDIR,
+    # the directory is removed: no key can be stored until the restart restores and restricts it
+    [("poll", ("ok", True, None, 1), ("ok", 1, True), "ok"), ("rmdir",), ("poll", ("ok", True, None, 1), ("ok", 2, True), "ok"), ("client",),
+     ("poll", ("ok", True, 1, 1), ("ok", 3, True), "ok"), ("status_tick",), ("provision", True), ("restart",),
+     ("poll", ("ok", True, None, 1), ("ok", 4, True), "ok"), ("client",), ("timeup",)],
+    # requesters of the key cancelled mid-request, with a key in memory
+    [("cancelled_signer",), ("poll", ("ok", True, None, 1), ("ok", 1, True), "ok"), ("cancelled_signer",), ("client",),
+     ("poll", ("ok", True, None, 1), ("ok", 2, True), "ok"), ("cancelled_signer",), ("status_tick",), ("provision", False), ("timeup",)],
 ]
 
 
@@ -669,8 +707,13 @@ def gen_history(rng, faults=True):
                     latched = k[1]
                 elif not k[2] and rng.random() < 0.6:
                     latched = k[1]                  # a faulty host that counts the non-hex key as latched
-        elif r < 0.53:
+        elif r < 0.50:
             hist.append(("restart",))
+        elif r < 0.54:
+            hist.append(("rmdir",))
+            on_disk.clear()
+        elif r < 0.58:
+            hist.append(("cancelled_signer",))
         elif r < 0.68:
             hist.append(("client",))
         elif r < 0.80:
@@ -695,6 +738,20 @@ HEX_SINKS = {"Log", "Stdout", "ConnLog"}
 BODY_SINKS = {"Log", "ConnLog", "Event", "StatusJson", "ProvisionTag", "SerialConsole", "ClientResponse"}
 
 
+def keydir_recreated_unrestricted(hist):
+    """known-finding class F12 (= Taint.KnownClass_keydir_recreated_unrestricted): the key directory is removed and the
+    provision deadline re-creates it before the agent is started again"""
+    removed = False
+    for o in hist:
+        if o[0] == "rmdir":
+            removed = True
+        elif o[0] == "restart":
+            removed = False
+        elif o[0] == "timeup" and removed:
+            return True
+    return False
+
+
 def nonhex_kids(hist):
     return {o[2][1] for o in hist if o[0] == "poll" and o[2][0] == "ok" and not o[2][2]}
 
@@ -713,8 +770,8 @@ def run(ctx):
 
     n_random = 114 if ctx.quick else 2000
     n_strace = 24 if ctx.quick else 200
-    hists = [WITNESS_HEX, WITNESS_BODY] + FIXED_CASES + [h for h, _ in SHAPE_CASES]
-    shapes = [None] * (2 + len(FIXED_CASES)) + [sh for _, sh in SHAPE_CASES]
+    hists = [WITNESS_HEX, WITNESS_BODY] + FIXED_CASES + [h for h, _ in SHAPE_CASES] + ENV_CASES
+    shapes = [None] * (2 + len(FIXED_CASES)) + [sh for _, sh in SHAPE_CASES] + [None] * len(ENV_CASES)
     n_fixed = len(hists)
     for i in range(n_random):
         h, sh = gen_history(rng, faults=(i % 3 != 0))
@@ -724,12 +781,15 @@ def run(ctx):
     predirs = [False] * n_fixed + [rng.random() < 0.3 for _ in range(n_random)]
     predirs[3] = True
     # environment fault: chown is refused (only meaningful on a directory somebody else owns)
-    chown_fails = [pd and rng.random() < 0.4 for pd in predirs]
+    # (not combined with a removal of the directory: a directory the agent re-creates is its own, and chown
+    #  root:root on it succeeds even without CAP_CHOWN, so "chown is refused" is no longer a property of the run)
+    chown_fails = [pd and rng.random() < 0.4 and not any(o[0] == "rmdir" for o in h) for pd, h in zip(predirs, hists)]
     predirs[4] = True
     chown_fails[4] = True
-    variants = [rng.randrange(4) for _ in hists]
+    variants = [rng.randrange(10) for _ in hists]
     straced = set(range(n_fixed)) | set(rng.sample(range(len(hists)), min(n_strace, len(hists))))
     straced |= {i for i, c in enumerate(chown_fails) if c}
+    straced |= {i for i, h in enumerate(hists) if any(o[0] == "rmdir" for o in h)}
 
     # ---------------- implementation ----------------
     def one(i):
@@ -783,7 +843,7 @@ def run(ctx):
                 disagreements.append({"case": case, "model": mtr, "impl": trace_codes(im["trace"]), "what": "key directory syscall order"})
             why = prop_trace(im["trace"], predirs[i], not chown_fails[i])
             if why:
-                failures.append({"case": case, "why": why, "impl": im["trace"]})
+                failures.append({"case": dict(case, key_directory=True), "why": why, "impl": im["trace"]})
             if im["outside"]:
                 disagreements.append({"case": case, "model": "all writes stay inside the configured directories", "impl": im["outside"]})
         # the property itself: a key value occurs only in the key file (MACs are not occurrences)
@@ -798,9 +858,14 @@ def run(ctx):
 
     def known_filter(f):
         c = f["case"]
+        h = [tuple(o) if o[0] != "poll" else ("poll", tuple(o[1]), tuple(o[2]), o[3]) for o in c["history"]]
+        if c.get("key_directory"):
+            if keydir_recreated_unrestricted(h) and "keydir_recreated_unrestricted" in known:
+                return ("F12 keydir_recreated_unrestricted: the key directory was removed while the agent ran and the provision deadline "
+                        "(write_provision_state -> try_create_folder) re-created it unrestricted; the next key is stored in it")
+            return None
         if "sink" not in c:
             return None
-        h = [tuple(o) if o[0] != "poll" else ("poll", tuple(o[1]), tuple(o[2]), o[3]) for o in c["history"]]
         if (not variant[0]) and c["kid"] in nonhex_kids(h) and c["sink"] in HEX_SINKS and "host_key_not_hex" in known:
             return "F6a host_key_not_hex: a key the host delivers with a non-hex value reaches %s (Error::Hex text)" % c["sink"]
         if (not variant[1]) and c["kid"] in malformed_kids(h) and c["sink"] in BODY_SINKS and "host_key_body_malformed" in known:
@@ -831,6 +896,9 @@ def run(ctx):
         "input_distribution": {
             "histories": len(hists), "polls": sum(1 for h in hists for o in h if o[0] == "poll"),
             "restarts": sum(1 for h in hists for o in h if o[0] == "restart"),
+            "keydir_removals": sum(1 for h in hists for o in h if o[0] == "rmdir"),
+            "cancelled_signers": sum(1 for h in hists for o in h if o[0] == "cancelled_signer"),
+            "histories_in_class_F12": sum(1 for h in hists if keydir_recreated_unrestricted(h)),
             "client_requests": sum(1 for h in hists for o in h if o[0] == "client"),
             "provision_queries": sum(1 for h in hists for o in h if o[0] == "provision"),
             "status_faults": sum(1 for h in hists for o in h if o[0] == "poll" and o[1][0] != "ok"),
